@@ -171,7 +171,8 @@ class Gen:
             for i in range(n):
                 c = r.random()
                 if c < 0.2:
-                    clauses.append("(%s => (lambda (%s) %s))" % (b(), "z", self.int_(env, d - 1)))
+                    # the receiver is an expression too: evaluated only when its clause is chosen (observable through the probe)
+                    clauses.append("(%s => %s)" % (b(), self.tick("(lambda (%s) %s)" % ("z", self.int_(env, d - 1)))))
                 elif c < 0.3:
                     clauses.append("(%s)" % e())
                 else:
@@ -184,10 +185,10 @@ class Gen:
             for i in range(n):
                 atoms = " ".join(str(r.randrange(0, 6)) for _ in range(r.randrange(1, 3)))
                 if r.random() < 0.2:
-                    clauses.append("((%s) => (lambda (%s) (+ %s 1)))" % (atoms, "z", "z"))
+                    clauses.append("((%s) => %s)" % (atoms, self.tick("(lambda (z) (+ z 1))")))
                 else:
                     clauses.append("((%s) %s)" % (atoms, e()))
-            clauses.append("(else %s)" % e() if r.random() < 0.8 else "(else => (lambda (z) z))")
+            clauses.append("(else %s)" % e() if r.random() < 0.8 else "(else => %s)" % self.tick("(lambda (z) z)"))
             return "(case %s %s)" % (self.tick(self.int_(env, d - 1)), " ".join(clauses))
         if k == 4:
             return "(if (and %s) %s %s)" % (" ".join(self.seq(r.randrange(0, 5), b)), e(), e())
